@@ -1,3 +1,204 @@
-(* C17 -- placeholder while the model is being validated; replaced by the theorem file. *)
-Require Import Grist.Model.PredicateRename.
-Example C17_placeholder : True. Proof. exact I. Qed.
+(* C17 -- Renames inside access rules and conditions are exact.
+   Statements only; the model is Model/PredicateRename.v over Model/Predicate.v (hand-written, compared with the
+   running predicate_formula.process_renames, the three collectors and the perform_*_renames functions on generated
+   formulas by every run of the check), proofs in Proofs/PredicateRename_proofs.v.
+   The CPython parser, asttokens and the $-replacer are oracles: the step "the patched text parses to the renamed
+   AST" is checked on the implementation for every case (harness/pred_e2e.py), not proved. *)
+From Coq Require Import ZArith List Bool String.
+Import ListNotations.
+Require Import Grist.Model.Predicate Grist.Model.PredicateRename.
+Require Import Grist.Proofs.Predicate_proofs Grist.Proofs.PredicateRename_proofs.
+Open Scope Z_scope.
+Open Scope list_scope.
+
+(* ------------------------------------------------------------------------------------------------- *)
+(* 1. The collectors are exact.  When the traversal of a collector succeeds it returns the converter's tree, and
+   the entities it appended are, in visit order, exactly the Attribute nodes `value.attr` anywhere in the
+   expression whose `value` has one of the collector's shapes (classify_ast), each with its own position. *)
+Theorem C17_collect_exact : forall k e t ents,
+  visit k e = Ok (t, ents) ->
+  convert false e = Ok t /\ ents = collect k e /\
+  forall ent, In ent ents <->
+              exists p v a ap, subexpr (EAttribute p v a ap) e /\ In ent (classify_ast k v a ap).
+Proof.
+  intros k e t ents H. split; [exact (visit_ok_convert k e t ents H)|].
+  pose proof (visit_collect k e (t, ents) H) as Hc. cbn in Hc. split; [exact Hc|]. subst ents.
+  intros ent. split; [apply collect_sound | apply collect_complete].
+Qed.
+
+(* a collector fails exactly when the converter fails (then the formula is left alone) *)
+Theorem C17_collector_rejects_iff : forall k e, is_ok (visit k e) = is_ok (convert false e).
+Proof. exact visit_is_ok. Qed.
+
+(* Arbitrary attribute chains  name.a1.a2...an  (positions p1...pn). *)
+Definition ent (ty : ent_type) (pos : Z) (name : str) (extra : option str) : entity := Build_entity ty pos name extra.
+
+Theorem C17_chain_acl_rec : forall p n a1 p1 rest,
+  n = lit "rec" \/ n = lit "newRec" ->
+  collect ACL (chain (EName p n) ((a1, p1) :: rest)) = [ent RecCol p1 a1 None].
+Proof.
+  intros p n a1 p1 rest Hn. rewrite collect_chain. cbn [collect chain_ents app].
+  rewrite chain_ents_after_name by (left; destruct Hn; subst; reflexivity).
+  destruct Hn; subst; reflexivity.
+Qed.
+
+Theorem C17_chain_acl_user : forall p a1 p1 rest,
+  collect ACL (chain (EName p (lit "user")) ((a1, p1) :: rest)) =
+  ent UserAttr p1 a1 None ::
+  match rest with (a2, p2) :: _ => [ent UserAttrCol p2 a2 (Some a1)] | [] => [] end.
+Proof.
+  intros p a1 p1 rest. rewrite collect_chain. cbn [collect chain_ents app].
+  destruct rest as [|[a2 p2] rest']; [reflexivity|]. cbn [chain_ents]. rewrite chain_ents_deep. reflexivity.
+Qed.
+
+Theorem C17_chain_acl_other : forall p n attrs,
+  is_ename (EName p n) "rec" = false -> is_ename (EName p n) "newRec" = false -> is_ename (EName p n) "user" = false ->
+  collect ACL (chain (EName p n) attrs) = [].
+Proof.
+  intros p n attrs H1 H2 H3. rewrite collect_chain. destruct attrs as [|[a ap] t]; [reflexivity|].
+  cbn [collect chain_ents app]. rewrite chain_ents_after_name by (left; exact H3).
+  unfold classify_ast. rewrite H1, H2, H3. reflexivity.
+Qed.
+
+Theorem C17_chain_dc : forall p n a1 p1 rest,
+  collect DC (chain (EName p n) ((a1, p1) :: rest)) =
+  if str_eqb n (lit "choice") then [ent ChoiceAttr p1 a1 None]
+  else if str_eqb n (lit "rec") then [ent RecCol p1 a1 None] else [].
+Proof.
+  intros. rewrite collect_chain. cbn [collect chain_ents app].
+  rewrite chain_ents_after_name by (right; discriminate). rewrite app_nil_r. reflexivity.
+Qed.
+
+Theorem C17_chain_trigger : forall p n a1 p1 rest,
+  collect Trigger (chain (EName p n) ((a1, p1) :: rest)) =
+  if str_eqb n (lit "rec") || str_eqb n (lit "oldRec") then [ent RecCol p1 a1 None] else [].
+Proof.
+  intros. rewrite collect_chain. cbn [collect chain_ents app].
+  rewrite chain_ents_after_name by (right; discriminate). rewrite app_nil_r. reflexivity.
+Qed.
+
+Example C17_chain_example :      (* user.Cust.Name.lower : the attribute, its column, nothing deeper *)
+  collect ACL (chain (EName (1, 0) (lit "user")) [(lit "Cust", 5); (lit "Name", 10); (lit "lower", 15)])
+  = [ent UserAttr 5 (lit "Cust") None; ent UserAttrCol 10 (lit "Name") (Some (lit "Cust"))].
+Proof. reflexivity. Qed.
+
+(* ------------------------------------------------------------------------------------------------- *)
+(* 2. Renaming commutes with conversion: the tree of the renamed expression is the old tree with exactly the
+   collected references renamed (for the code as it is and for the repaired converter of C40). *)
+Theorem C17_rename_commutes : forall strict k (r : renamer) e,
+  convert strict (rename_ast k r e) = map_cres (rename_tree k r) (convert strict e).
+Proof. exact rename_commutes_lemma. Qed.
+
+(* The renamers of the three callers rename a reference only when its table matches: rec.X of an ACL rule
+   belongs to the table of the rule's resource, user.A.X to the lookup table of attribute A, choice.X to the
+   referenced table, and user.A itself is never renamed. *)
+Theorem C17_acl_renamer_exact : forall rs rule_table attr_tables ty name extra new,
+  acl_renamer rs rule_table attr_tables ty name extra = Some new ->
+  (ty = RecCol /\ exists t, rule_table = Some t /\ renames_get rs t name = Some new) \/
+  (ty = UserAttrCol /\ exists a t, extra = Some a /\ assoc_str a attr_tables = Some t /\ renames_get rs t name = Some new).
+Proof.
+  intros rs rt at' ty name extra new H. destruct ty; cbn in H; try discriminate.
+  - left. split; [reflexivity|]. destruct rt; [eauto|discriminate].
+  - right. split; [reflexivity|]. destruct extra as [a|]; [|discriminate].
+    destruct (assoc_str a at') as [t|] eqn:E; [|discriminate]. eauto.
+Qed.
+
+Theorem C17_dc_renamer_exact : forall rs ref_table self_table ty name extra new,
+  dc_renamer rs ref_table self_table ty name extra = Some new ->
+  (ty = ChoiceAttr /\ exists t, ref_table = Some t /\ renames_get rs t name = Some new) \/
+  (ty <> ChoiceAttr /\ renames_get rs self_table name = Some new).
+Proof.
+  intros rs rt st ty name extra new H. destruct ty; cbn in H;
+    try (right; split; [discriminate | exact H]).
+  left. split; [reflexivity|]. destruct rt; [eauto|discriminate].
+Qed.
+
+(* ------------------------------------------------------------------------------------------------- *)
+(* 3. The ACL resource column list.  With new column ids that contain no comma: an update is issued exactly when
+   the renamed list differs, the new text splits into the old elements renamed one by one, and a list in which
+   nothing is renamed is textually unchanged (join o split = identity). *)
+Theorem C17_acl_colids_rename : forall rs t colids,
+  renames_comma_free rs = true ->
+  match rename_colids rs t colids with
+  | Some new => new <> colids /\ split_comma new = map (rename_col rs t) (split_comma colids)
+  | None => colids = [] \/ colids = lit "*" \/ map (rename_col rs t) (split_comma colids) = split_comma colids
+  end.
+Proof. exact rename_colids_spec. Qed.
+
+Theorem C17_colids_text_roundtrip : forall s, join_comma (split_comma s) = s.
+Proof. exact join_split. Qed.
+
+Example C17_colids_example :
+  let rs := [(lit "Students", lit "lastName", lit "Family_Name")] in
+  renames_comma_free rs = true /\
+  rename_colids rs (lit "Students") (lit "firstName,lastName") = Some (lit "firstName,Family_Name") /\
+  rename_colids rs (lit "Schools") (lit "firstName,lastName") = None /\
+  rename_colids rs (lit "Students") (lit "*") = None.
+Proof. vm_compute. repeat split; reflexivity. Qed.
+
+(* ------------------------------------------------------------------------------------------------- *)
+(* 4. Formulas that do not parse are left untouched.  "Does not parse" = parse_predicate_formula raises SyntaxError:
+   the text is not even a module ([dollar_ok = false]: get_dollar_replacer raises), or not an expression
+   ([ast = None]), or the converter rejects it. *)
+Definition unparsable (dollar_ok : bool) (ast : option expr) : Prop :=
+  dollar_ok = false \/ ast = None \/ exists e, ast = Some e /\ is_ok (convert false e) = false.
+
+Definition C17_unparsable_untouched_statement (repaired : bool) : Prop :=
+  forall k r formula dollar_ok dollars ast,
+    unparsable dollar_ok ast -> process_renames repaired k r formula dollar_ok dollars ast = PRText formula.
+
+(* What holds of the code as it is: untouched whenever the $-replacer itself could parse the text. *)
+Theorem C17_unparsable_untouched_partial : forall k r formula dollars ast,
+  unparsable true ast -> process_renames false k r formula true dollars ast = PRText formula.
+Proof.
+  intros k r formula dollars ast [H|[H|[e [-> H]]]]; [discriminate | subst; reflexivity |].
+  apply process_renames_rejected. exact H.
+Qed.
+
+(* The full statement is false for the code as it is: the SyntaxError of get_dollar_replacer escapes. *)
+Theorem C17_unparsable_untouched_refuted : ~ C17_unparsable_untouched_statement false.
+Proof.
+  intros H. specialize (H ACL (fun _ _ _ => None) (lit "rec.A ==") false [] None (or_introl eq_refl)). discriminate.
+Qed.
+
+(* With the proposed repair (notes/proposed_fixes/C17-unparsable-formula.diff) it holds. *)
+Theorem C17_unparsable_untouched_repaired : C17_unparsable_untouched_statement true.
+Proof.
+  intros k r formula dollar_ok dollars ast [H|[H|[e [-> H]]]].
+  - subst. reflexivity.
+  - subst. destruct dollar_ok; reflexivity.
+  - destruct dollar_ok; [apply process_renames_rejected; exact H | reflexivity].
+Qed.
+
+(* ------------------------------------------------------------------------------------------------- *)
+(* 5. Text.  A formula in which the renamer hits no collected reference is returned character for character. *)
+Theorem C17_nothing_to_rename_text_unchanged : forall repaired k r formula dollars e t ents,
+  visit k e = Ok (t, ents) ->
+  (forall x, In x ents -> r (e_type x) (e_name x) (e_extra x) = None) ->
+  process_renames repaired k r formula true dollars (Some e) = PRText formula.
+Proof.
+  intros repaired k r formula dollars e t ents Hv Hr. unfold process_renames. cbn [negb]. rewrite Hv.
+  rewrite (rename_patches_no_hit r dollars ents Hr). reflexivity.
+Qed.
+
+(* Non-vacuity, on text:  $A == rec.A  (the $-free text is  rec.A == rec.A ; the names sit at 4 and 13)
+   with A renamed to Zed becomes  $Zed == rec.Zed ; a rename of another table's column changes nothing. *)
+Definition ex17_ast : expr :=
+  ECompare (1, 0) (EAttribute (1, 0) (EName (1, 0) (lit "rec")) (lit "A") 4) [OpEq]
+           [EAttribute (1, 9) (EName (1, 9) (lit "rec")) (lit "A") 13].
+
+Example C17_nonvacuous :
+  let rs := [(lit "T", lit "A", lit "Zed")] in
+  undollar_text (lit "$A == rec.A") [0] = lit "rec.A == rec.A" /\
+  process_renames false ACL (acl_renamer rs (Some (lit "T")) []) (lit "$A == rec.A") true [0] (Some ex17_ast)
+    = PRText (lit "$Zed == rec.Zed") /\
+  process_renames false ACL (acl_renamer rs (Some (lit "C")) []) (lit "$A == rec.A") true [0] (Some ex17_ast)
+    = PRText (lit "$A == rec.A") /\
+  convert false (rename_ast ACL (acl_renamer rs (Some (lit "T")) []) ex17_ast)
+    = Ok (TCmp OpEq (TAttr (TName (lit "rec")) (lit "Zed")) (TAttr (TName (lit "rec")) (lit "Zed"))) /\
+  unparsable false None /\ unparsable true (Some (EUnsupported (1, 0) (lit "Lambda"))).
+Proof.
+  cbv zeta. repeat split; try (vm_compute; reflexivity).
+  - left; reflexivity.
+  - right; right. eexists; split; reflexivity.
+Qed.
